@@ -7,6 +7,7 @@ import (
 	"encoding/json"
 	"fmt"
 	"strings"
+	"sync"
 
 	"github.com/MichaelMure/git-bug/cache"
 	"github.com/MichaelMure/git-bug/entities/bug"
@@ -144,6 +145,7 @@ func runC04(c *runCtx) {
 	c04Alias(c)
 	c04JsonStr(c)
 	c04CacheReplica(c)
+	c04ParallelRead(c)
 	c04KeyChange(c)
 	N := c.pick(160, 2500)
 	for i := 0; i < N; i++ {
@@ -761,5 +763,88 @@ func c04KeyChange(c *runCtx) {
 		other.Close()
 		remote.Close()
 		cleanupScratch()
+	}
+}
+
+// c04ParallelRead: "read back ... through a second replica after push/pull" when the second replica is a
+// process with several readers (the web UI answers requests in parallel): the bugs arrive in one packfile,
+// eight goroutines read all of them at the same time, each must see every bug exactly as it was committed.
+// (A crash of the runtime inside the object storage ends the harness; the check reports that as such.)
+func c04ParallelRead(c *runCtx) {
+	for rep := 0; rep < c.pick(2, 6); rep++ {
+		r := c.rng.fork()
+		remote, _ := newGoGit("c04pr", true)
+		repoA, _ := newGoGit("c04pa", false)
+		repoB, dirB := newGoGit("c04pb", false)
+		for _, rp := range []repository.TestedRepo{repoA, repoB} {
+			if err := rp.AddRemote("origin", remote.GetLocalRemote()); err != nil {
+				panic(err)
+			}
+		}
+		authors := mkAuthors(repoA, 2)
+		want := map[entity.Id][]string{}
+		for k := 0; k < c.pick(30, 60); k++ {
+			g := newOpGen(r.fork(), authors)
+			b := bug.NewBug()
+			cop := g.create()
+			b.Append(cop)
+			g.record(cop, true)
+			for j := 0; j < r.intn(4); j++ {
+				op, isC, _ := g.next()
+				b.Append(op)
+				g.record(op, isC)
+			}
+			if err := b.Commit(repoA); err != nil {
+				panic(err)
+			}
+			want[b.Id()] = opIdsOf(b.Operations())
+		}
+		if _, err := identity.Push(repoA, "origin"); err != nil {
+			panic(err)
+		}
+		if _, err := bug.Push(repoA, "origin"); err != nil {
+			panic(err)
+		}
+		if err := identity.Pull(repoB, "origin"); err != nil {
+			panic(err)
+		}
+		if err := bug.Pull(repoB, resolversFor(repoB), "origin", authors[0]); err != nil {
+			panic(err)
+		}
+		repoB.Close()
+		rb, err := openGoGit(dirB)
+		if err != nil {
+			panic(err)
+		}
+		var wg sync.WaitGroup
+		var mu sync.Mutex
+		var problems []string
+		gate := make(chan struct{})
+		for g := 0; g < 8; g++ {
+			wg.Add(1)
+			go func() {
+				defer wg.Done()
+				<-gate
+				for id, ops := range want {
+					b, err := bug.Read(rb, id)
+					got := "unreadable"
+					if err == nil {
+						got = fmt.Sprint(opIdsOf(b.Operations()))
+					}
+					if got != fmt.Sprint(ops) {
+						mu.Lock()
+						problems = append(problems, fmt.Sprintf("bug %s: %v, read %s, committed %v", id.Human(), err, trunc(got, 80), len(ops)))
+						mu.Unlock()
+					}
+				}
+			}()
+		}
+		close(gate)
+		wg.Wait()
+		c.count("parallel-read")
+		if len(problems) > 0 {
+			c.violation(-1, "C04/unreadable", fmt.Sprintf("8 readers of a replica that pulled %d bugs: %s", len(want), problems[0]), nil)
+		}
+		rb.Close()
 	}
 }
